@@ -471,3 +471,66 @@ def run_reject(ctx, case, rng, report):
         return
     pred = "TT-rank > 1 (not a Kronecker product), square blocks" if why == "rank" else "TT-ranks 1, non-square blocks"
     report(op, pred, "%s() accepted an input it must reject (%s): input_dims=%s output_dims=%s ranks=%s" % (op, pred, ind, outd, ranks))
+
+
+# =============================================================================== correspondence with the Lean model (main session)
+def _corr_cases(rng, tier):
+    n = {"quick": 150, "thorough": 2000, "search": 0}[tier]
+    out = []
+    for _ in range(n):
+        d = rng.randint(1, 4)
+        ind = [rng.randint(1, 3) for _ in range(d)]
+        outd = list(ind) if rng.random() < 0.6 else [rng.randint(1, 3) for _ in range(d)]
+        ranks = [1] * (d - 1) if rng.random() < 0.6 else [rng.randint(1, 3) for _ in range(d - 1)]
+        out.append({"kind": "corr", "ind": ind, "outd": outd, "ranks": ranks, "seed": rng.randrange(1 << 30)})
+    return out
+
+
+_orig_cases = cases
+_orig_run_case = run_case
+
+
+def cases(rng, tier):  # noqa: F811
+    return _orig_cases(rng, tier) + _corr_cases(rng, tier)
+
+
+def run_case(ctx, case):  # noqa: F811
+    if case.get("kind") != "corr":
+        return _orig_run_case(ctx, case)
+    import torch
+    ind, outd, ranks = case["ind"], case["outd"], case["ranks"]
+    d = len(ind)
+    ctx.case(("corr", tuple(ind), tuple(outd), tuple(ranks)), True,
+             {"op": "model correspondence: _check_kron_properties and the index interleaving", "input_dims": ind, "output_dims": outd, "ranks": ranks})
+    ctx.count("corr:kron_ok")
+    if not (getattr(ctx, "use_model", False) and not getattr(ctx, "search_only", False)):
+        return
+    g = torch.Generator().manual_seed(case["seed"])
+    rr = [1] + ranks + [1]
+    cores = [torch.randn(rr[k], ind[k], outd[k], rr[k + 1], generator=g, dtype=torch.float64) for k in range(d)]
+    A = tn.TTMatrix(cores, ranks, ind, outd)
+    try:
+        A._check_kron_properties(); impl_ok = True
+    except ValueError:
+        impl_ok = False
+    toks = ctx.drv().call("kron_ok %d %s %d %s %d %s" % (len(ranks), " ".join(map(str, ranks)), d, " ".join(map(str, ind)), d, " ".join(map(str, outd))))
+    if (toks[2] == "1") != impl_ok:
+        ctx.corr("_check_kron_properties %s the input, the model's kronOK says %s" % ("accepts" if impl_ok else "rejects", toks[2]), case)
+    # index interleaving: torch() of the TT-matrix built from the dense matrix must read back entry (i, j) from the mode indices
+    import random as _r
+    rng = _r.Random(case["seed"])
+    i_ = [rng.randrange(s) for s in ind]; j_ = [rng.randrange(s) for s in outd]
+    toks = ctx.drv().call("pair_split %d %s %d %s %d %s" % (d, " ".join(map(str, i_)), d, " ".join(map(str, j_)), d, " ".join(map(str, outd))))
+    parts = " ".join(toks[1:]).split(" | ")
+    p = [int(v) for v in parts[0].split()[1:]]
+    # the implementation's decompression: entry [flat(i), flat(j)] of torch() equals the chain entry at the paired indices
+    flat = tn.Tensor([c.reshape(c.shape[0], -1, c.shape[-1]) for c in cores]).torch()
+    row = 0
+    for s, v in zip(ind, i_):
+        row = row * s + v
+    col = 0
+    for s, v in zip(outd, j_):
+        col = col * s + v
+    got = float(A.torch()[row, col]); exp = float(flat[tuple(p)])
+    if abs(got - exp) > 1e-9 * max(1.0, abs(exp)):
+        ctx.corr("TTMatrix.torch()[%d,%d] = %r but the chain entry at the model's paired indices %s is %r" % (row, col, got, p, exp), case)
